@@ -48,6 +48,9 @@ parts = [
   Region(RS, "router_payload_frame", "send", r"if let Some\(active_info\) = &\*current_send_target_guard \{", r"\} else \{\s*\n\s*if !msg\.is_more\(\) \{\s*\n\s*drop\(current_send_target_guard\);",
          sig="async fn router_payload_frame(&mut self, msg: Msg, router_mandatory_opt: bool, active_target: String) -> (r: Result<(), ZmqError>)",
          expr=True, impl=r"impl\s+ISocket\s+for\s+RouterSocket\b", emit_impl="impl RouterSocket",
+         # R11: dropping the future at an await must not leave the send closed while the message on the connection is still open
+         await_inv=[("C02+C09:cancel_at_any_await_never_leaves_the_send_closed_with_a_partial_message_on_the_connection",
+                     "self.current_send_target is None ==> !self.handed@.last().1.flags.more")],
          requires=["old(self).current_send_target matches Some(t) && t@ == active_target@",
                    "old(self).handed@.len() > 0 && old(self).handed@.last().1.flags.more && old(self).handed@.last().0 == active_target@"],   # a message is in progress on that connection
          ensures=[
@@ -69,4 +72,4 @@ parts = [
 ]
 
 FNS = {p.name: p for p in parts if isinstance(p, Fn)}
-unit = Unit("routersend", ["C02", "C11"], parts, safety_props=["C02"], notes="ROUTER frame-by-frame send: the payload branch")
+unit = Unit("routersend", ["C02", "C09", "C11"], parts, safety_props=["C02"], notes="ROUTER frame-by-frame send: the payload branch")
